@@ -56,20 +56,8 @@ Lemma R_frame cap (c : rcore) r buf' : rtcm_inv cap c r -> firstn (length r) buf
 Proof. intros (H1 & H2 & H3 & H4 & H5) E _. unfold rtcm_inv. cbn. repeat split; assumption. Qed.
 
 (* ---- reading the buffer when it is known to start with r ++ [b] ---- *)
-Lemma buf_split (buf r : list N) b : firstn (length r) buf = r -> nth_error buf (length r) = Some b ->
-  buf = r ++ b :: skipn (S (length r)) buf.
-Proof.
-  intros H1 H2. rewrite <- (firstn_skipn (length r) buf) at 1. rewrite H1. f_equal.
-  apply (skipn_S_nth buf (length r) b H2).
-Qed.
 
-Lemma rd_app_l (r x : list N) i : (i < length r)%nat -> rd (r ++ x) (N.of_nat i) = Ok (nth i r 0).
-Proof.
-  intros H. apply rd_ok. rewrite nth_error_app1 by exact H. apply nth_error_nth'. exact H.
-Qed.
 
-Lemma rd_app_mid (r : list N) b t : rd (r ++ b :: t) (N.of_nat (length r)) = Ok b.
-Proof. apply rd_ok. rewrite nth_error_app2 by lia. rewrite Nat.sub_diag. reflexivity. Qed.
 
 Lemma swap16_mask x : N.land (x mod 65536) RTCM_LEN_MASK = N.land x RTCM_LEN_MASK.
 Proof.
@@ -95,8 +83,6 @@ Proof.
   exists x, y. symmetry. exact E.
 Qed.
 
-Lemma forall_nth (r : list N) i : bytes_lt256 r -> (i < length r)%nat -> nth i r 0 < 256.
-Proof. intros H Hi. unfold bytes_lt256 in H. rewrite Forall_forall in H. apply H. apply nth_In. exact Hi. Qed.
 
 Lemma judge_rtcm_long cap b0 l' : (3 <= length (b0 :: l'))%nat -> b0 = RTCM_PREAMBLE ->
   judge_rtcm cap (b0 :: l') =
@@ -474,14 +460,6 @@ Proof.
 Qed.
 
 (* ---- data-only histories: the whole stream, any chunking ---- *)
-Lemma spec_run_data J mc cl cap : forall chunks off r,
-  concat (spec_run J mc cl (mkSp (Some cap) off r) (map OpData chunks)) = fst (feed_all (J cap) (off, r) chunks).
-Proof.
-  induction chunks as [|ch rest IH]; intros off r; [reflexivity|].
-  cbn [map spec_run spec_op sp_cap sp_off sp_res feed_all concat].
-  destruct (feed (J cap) (off, r) ch) as [fs [o' r']]. cbn [fst snd].
-  cbn [concat]. rewrite IH. destruct (feed_all (J cap) (o', r') rest) as [fs2 st2]. reflexivity.
-Qed.
 
 Lemma run_ops_data_count : forall chunks f outs ff,
   run_ops rframer rtcm_op f (map OpData chunks) = Ok (outs, ff) ->
@@ -543,4 +521,39 @@ Proof.
     + unfold rtcm_set_buffer, set_buffer. destruct (_ <? _) eqn:E0.
       * destruct Hsim as (Hh & _). unfold rtcm_set_buffer, set_buffer in Hh. rewrite E0 in Hh. discriminate.
       * reflexivity.
+Qed.
+
+(* ---- statements used by Properties/C14.v ---- *)
+Lemma rtcm_judge_ok_local : forall cap, JudgeOK (judge_rtcm cap) /\ JudgeLocal (judge_rtcm cap).
+Proof. intros cap. split; [exact (judge_rtcm_ok cap) | exact (judge_rtcm_local cap)]. Qed.
+
+Lemma rtcm_refines_scan_top : forall user alloc_addr capacity mem ops,
+  N.of_nat (length mem) = capacity + match user with None => RTCM_MANAGED_EXTRA | Some _ => 0 end ->
+  Forall op_ok ops ->
+  exists ff, run_ops rframer rtcm_op (rtcm_construct user alloc_addr capacity mem) ops =
+             Ok (map rtcm_out (spec_run judge_rtcm RTCM_OVERHEAD_BYTES RTCM_CLAMP (rtcm_spec_construct user alloc_addr capacity) ops), ff).
+Proof.
+  intros user alloc_addr capacity mem ops Hlen Hok.
+  exact (rtcm_history ops _ _ (rtcm_construct_sim user alloc_addr capacity mem Hlen) Hok).
+Qed.
+
+Lemma rtcm_no_oob_top : forall user alloc_addr capacity mem ops,
+  N.of_nat (length mem) = capacity + match user with None => RTCM_MANAGED_EXTRA | Some _ => 0 end ->
+  Forall op_ok ops ->
+  match run_ops rframer rtcm_op (rtcm_construct user alloc_addr capacity mem) ops with
+  | Ok _ => True | OobRead _ _ => False | OobWrite _ _ => False | OutOfFuel => False end.
+Proof.
+  intros user alloc_addr capacity mem ops Hlen Hok.
+  destruct (rtcm_history ops _ _ (rtcm_construct_sim user alloc_addr capacity mem Hlen) Hok) as (ff & E).
+  rewrite E. exact I.
+Qed.
+
+Lemma rtcm_usable_capacity : forall a capacity,
+  6 <= capacity ->
+  sp_cap (rtcm_spec_construct (Some a) 0 capacity) =
+    (let c := N.min capacity RTCM_CLAMP - (4 - a mod 4) mod 4 in if c <? 6 then None else Some c).
+Proof.
+  intros a capacity H. unfold rtcm_spec_construct, rtcm_spec_op, spec_op, spec_eff_capacity.
+  destruct (N.ltb_spec capacity RTCM_OVERHEAD_BYTES) as [C|_]; [change RTCM_OVERHEAD_BYTES with 6 in C; lia|].
+  reflexivity.
 Qed.
